@@ -1186,3 +1186,36 @@ Proof.
     - inversion Hex; subst. eapply G. exact Hin. }
   destruct Hkeys as (v' & Hv'). exact (unnamed_not_exposed _ _ _ _ Hv').
 Qed.
+
+(* ------------------------------------------------------------------ the evaluator's loader *)
+
+Lemma entries_of_rule : forall cs i e, In e (entries_of i cs) -> i <= ce_rule e < i + length cs.
+Proof.
+  induction cs as [|c r IH]; intros i e H; simpl in H; [destruct H|].
+  apply in_app_or in H as [H|H].
+  - apply in_map_iff in H as (pm & <- & _). simpl. lia.
+  - specialize (IH _ _ H). simpl. lia.
+Qed.
+
+Lemma create_rules_length fx4 : forall ds cs, create_rules fx4 ds = Ok cs -> length cs = length ds.
+Proof.
+  induction ds as [|d r IH]; intros cs H; simpl in H; [inversion H; reflexivity|].
+  destruct (create_rule fx4 d); [|discriminate]. destruct (create_rules fx4 r) as [cs'|] eqn:E; [|discriminate].
+  inversion H; subst. simpl. rewrite (IH cs' eq_refl). reflexivity.
+Qed.
+
+(** with one rule set the loader the check evaluates ([load2]) is the loader of the theorems *)
+Lemma load2_single fx3 fx4 k ds : length ds <= k -> load2 fx3 fx4 k ds = load fx3 fx4 ds.
+Proof.
+  intro Hk. unfold load2, load. destruct (create_rules fx4 ds) as [cs|] eqn:Ec; [|reflexivity].
+  assert (Hl := create_rules_length _ _ _ Ec).
+  assert (Hall : forall e, In e (entries_of 0 cs) -> Nat.ltb (ce_rule e) k = true).
+  { intros e He. apply entries_of_rule in He. apply Nat.ltb_lt. lia. }
+  assert (E1 : filter (fun e => Nat.ltb (ce_rule e) k) (entries_of 0 cs) = entries_of 0 cs).
+  { clear -Hall. induction (entries_of 0 cs) as [|e r IH]; [reflexivity|]. simpl.
+    rewrite (Hall e (or_introl eq_refl)). f_equal. apply IH. intros x Hx. apply Hall. right. exact Hx. }
+  assert (E2 : filter (fun e => negb (Nat.ltb (ce_rule e) k)) (entries_of 0 cs) = []).
+  { clear -Hall. induction (entries_of 0 cs) as [|e r IH]; [reflexivity|]. simpl.
+    rewrite (Hall e (or_introl eq_refl)). simpl. apply IH. intros x Hx. apply Hall. right. exact Hx. }
+  rewrite E1, E2. destruct (add_entries fx3 empty_tree 0 (entries_of 0 cs)); reflexivity.
+Qed.
